@@ -348,6 +348,14 @@ def _violation(case, ir):
     if 'CRASH' in ir:
         return 'crash', 'memory error / abort in the implementation: ' + ir[:200]
     flags, width, cmds, args = parse_case(case)
+    # set=<idx>:<value>: the argument was given this value before the other commands - its variable holds it
+    for c in cmds:
+        if c.startswith('set='):
+            i, v = c[4:].split(':')
+            if int(i) >= len(args):
+                return None        # (a shrunk case whose argument is gone)
+            args[int(i)] = dict(args[int(i)], iv=unhx(v))
+    cmds = [c for c in cmds if not c.startswith('set=')]
     res = ir.split(' ##')[0].strip()
     t1, t2 = parse_texts(case)
     if not texts_valid(t1, t2):
@@ -867,8 +875,24 @@ def path_cases():
     return out
 
 
+def value_then_help_cases():
+    """an argument is given a value, THEN the usage is requested: the entry still has its default-value line (with
+    the value the variable holds now), unit, checks and constraints; and the free-value argument (key "-") in the
+    complete, the short-only and the long-only usage"""
+    out = []
+    f = ALLSET
+    args = [mk_arg('n,number', 'i', '42', '', unit='ms', chk=['Value >= 5'], desc='a number'),
+            mk_arg('name', 's', 'abc', 'p', desc='a name'), mk_arg('l', 'l', '', '', desc='level'),
+            mk_arg('q', 'i', '', 'n', desc='quiet number'), mk_arg('-', 's', '', '', desc='the free value')]
+    for sets in ([], ['set=0:' + hx('5')], ['set=1:' + hx('xyz')], ['set=0:' + hx('7'), 'set=1:' + hx('two words')],
+                 ['set=3:' + hx('9')], ['set=4:' + hx('free')], ['set=2:' + hx('3')]):
+        for cont in ([], ['hs'], ['hl']):
+            out.append(mk_case(f, 80, sets + cont + ['h'], args))
+    return out
+
+
 def gen_cases(tier, rng):
-    cases = list(CORPUS) + long_word_cases() + subgroup_cases(rng, 6 if tier == 'quick' else 30) + path_cases()
+    cases = list(CORPUS) + long_word_cases() + subgroup_cases(rng, 6 if tier == 'quick' else 30) + path_cases() + value_then_help_cases()
     # every combination of the display settings for a family of argument sets
     nsets = 12 if tier == 'quick' else 60
     for args in family_sets(rng, nsets):
